@@ -13,7 +13,7 @@
    [u] is the type universe (method sets): all theorems hold for every universe. *)
 From Eino Require Import Base.Util Model.Types Model.TypeBuilder.
 From Eino Require Import Proofs.TypesLattice Proofs.TypesBuilder Proofs.TypesRun Proofs.TypesInv2 Proofs.TypesMay Proofs.TypesMain.
-From Eino Require Import Proofs.TypesOrder Proofs.TypesAddOrder.
+From Eino Require Import Proofs.TypesOrder Proofs.TypesAddOrder Proofs.TypesFlow Proofs.TypesLatticeX.
 
 (* the universe of the harness: T1 T2 T3 M = TConc 0..3, I1 I2 = TIface 0 1 *)
 Definition U0 : univ :=
@@ -42,6 +42,34 @@ Theorem concrete_upstream_decided : forall u x a,
   check_assignable u (Some (TConc x)) (Some a) = Must.
 Proof. exact concrete_upstream_static. Qed.
 Print Assumptions concrete_upstream_decided.
+
+(* behind a concrete upstream type the static decision is exact: Must iff the value is held
+   by the downstream type (its own type, or an interface it implements), MustNot iff not *)
+Theorem concrete_upstream_exact : forall u x a,
+  (check_assignable u (Some (TConc x)) (Some a) = Must <-> dyn_assignable u (DVal x) a = true) /\
+  (check_assignable u (Some (TConc x)) (Some a) = MustNot <-> dyn_assignable u (DVal x) a = false).
+Proof. exact concrete_upstream_exact_lemma. Qed.
+Print Assumptions concrete_upstream_exact.
+
+(* a run-time check is asked for (May) exactly for an interface-typed upstream whose type the
+   downstream type implements, when the connection is not already statically safe *)
+Theorem may_exact : forall u i a,
+  check_assignable u (Some i) (Some a) = May <->
+  (ty_eqb a i = false /\ (is_iface a && implements u i a) = false /\ is_iface i = true /\ implements u a i = true).
+Proof. exact may_exact_lemma. Qed.
+Print Assumptions may_exact.
+
+(* a named map type and its unnamed underlying type (TConc 4 / TConc 3 in the harness), a
+   struct and its pointer type: distinct concrete types, never connected, in either direction *)
+Example concrete_upstream_exact_nonvacuous :
+  let U := {| u_conc := [(3, []); (4, [4]); (0, [3; 4]); (5, [3; 4])]%N; u_iface := [(1, [4])]%N |} in
+  check_assignable U (Some (TConc 3)) (Some (TConc 4)) = MustNot /\
+  check_assignable U (Some (TConc 4)) (Some (TConc 3)) = MustNot /\
+  check_assignable U (Some (TConc 0)) (Some (TConc 5)) = MustNot /\
+  check_assignable U (Some (TConc 4)) (Some (TIface 1)) = Must /\
+  check_assignable U (Some (TConc 3)) (Some (TIface 1)) = MustNot /\
+  check_assignable U (Some (TIface 1)) (Some (TConc 4)) = May.
+Proof. vm_compute. repeat split. Qed.
 
 (* the assertion the framework makes (after the repair F-C07b) is Go assignability *)
 Theorem assertion_is_assignability : forall u d t, assert_type u d t = dyn_assignable u d t.
@@ -183,6 +211,64 @@ Proof.
   split; [vm_compute; reflexivity|].
   split; [apply emit_okb_sound; vm_compute; reflexivity|].
   vm_compute. auto.
+Qed.
+
+(* ------------------------------------------------------------------ flow_type_safe *)
+
+(* Scheduler-independent form of run_type_safe.  [flow u st site k d] (Proofs/TypesFlow.v): a
+   value of dynamic type d can be at the given site of node k ([SArr] handed to the task,
+   [SBody] entering the node body behind the state pre handler, [SOut] leaving it, [SDone]
+   the completed value behind the state post handler) in SOME execution of the compiled
+   graph: values move only from a completed node along a data edge or to an end node of one
+   of its branches, through the run-time converters installed on that connection, and
+   through handlers and node bodies; lambdas and state handlers return ANY value of their
+   declared Go type (no emit table, nothing fixed per run: loops may carry different values
+   every time), the any-typed handlers of a passthrough node return anything and the result
+   moves on only if the node's converter accepts it.  Nothing is said about WHEN a node
+   runs, about whether values travel as values or as lazily converted streams, or about how
+   many values meet at a node (mergeValues returns a value of the common dynamic type of
+   its arguments or fails): the statement covers Invoke / Stream / Collect / Transform, the
+   Pregel, all-predecessor (DAG) and eager (Workflow) disciplines, and fan-in.
+   Every value that can be at a site has the static type of that site ... *)
+Theorem flow_type_safe : forall u orcs i o s ops st oks,
+  run_ops u orcs 0 (init_graph i o s) ops = (st, oks) -> g_compiled st = true ->
+  forall si k d, flow u st si k d -> site_typed u st si k d.
+Proof. exact flow_typed_main. Qed.
+Print Assumptions flow_type_safe.
+
+(* ... hence no type assertion of the framework can fail: state pre handler entry, node
+   entry, state post handler entry, branch condition (behind its converter), final output *)
+Theorem flow_sites_safe : forall u orcs i o s ops st oks,
+  run_ops u orcs 0 (init_graph i o s) ops = (st, oks) -> g_compiled st = true -> sites_safe u st.
+Proof. exact flow_sites_safe_main. Qed.
+Print Assumptions flow_sites_safe.
+
+(* the superstep loop [run] that the correspondence check evaluates is one of these
+   executions: every task it creates and every completed value it sees is a flow *)
+Theorem invoke_is_a_flow : forall u orcs i o s ops st oks emit input,
+  run_ops u orcs 0 (init_graph i o s) ops = (st, oks) -> g_compiled st = true ->
+  emit_ok u emit st -> hret_ok u st -> has_type u input (g_in st) = true ->
+  (forall ts, In ts (run_tasks u emit st input) -> forall x, In x ts -> flow u st SArr (fst x) (snd x)) /\
+  (forall ds, In ds (run_dones u emit st input) -> forall x, In x ds -> flow u st SDone (fst x) (snd x)).
+Proof. exact run_flows_main. Qed.
+Print Assumptions invoke_is_a_flow.
+
+(* in st_b a T2 value returned by n2 (output type I2) reaches the passthrough node P = 3
+   (inferred I2); the Pregel run with that emission has exactly this task *)
+Example flow_type_safe_nonvacuous :
+  flow U0 st_b SArr 3%N (DVal 1) /\
+  In [(3%N, DVal 1)] (run_tasks U0 [(2, DVal 1)]%N st_b (DVal 0)) /\
+  site_typed U0 st_b SArr 3%N (DVal 1).
+Proof.
+  assert (F : flow U0 st_b SArr 3%N (DVal 1)).
+  { eapply F_edge with (s := 2%N); [| vm_compute; auto | vm_compute; reflexivity].
+    apply F_post_same.
+    eapply F_body_lambda with (d := DVal 0) (t := I2);
+      [| vm_compute; reflexivity | reflexivity | reflexivity | vm_compute; reflexivity].
+    apply F_pre_same. eapply F_edge with (s := 0%N); [| vm_compute; auto | vm_compute; reflexivity].
+    apply F_start. vm_compute; reflexivity. }
+  split; [exact F|]. split; [vm_compute; auto|].
+  eapply flow_type_safe; [| | exact F]; [unfold st_b; apply surjective_pairing | vm_compute; reflexivity].
 Qed.
 
 (* ------------------------------------------------------------------ may_edges_error_iff *)
